@@ -232,6 +232,26 @@ def zero(t):
 def resolve(t):
     while t.kind == 'named': t = named[t.name]
     return t
+def first_field_path(src_pointee, dst_pointee):
+    """bitcast S* -> T* where T is the type of the (nested) first member of S: return the member path, so that the access
+    stays typed (CBMC propagates constants through typed member accesses but not through byte-level reinterpretation)."""
+    if os.environ.get('IR2C_FFP', '1') != '1': return None
+    want = tstr(dst_pointee); t = src_pointee; path = ''
+    for _ in range(8):
+        if t.kind == 'named':
+            if named.get(t.name) is None: return None
+            t2 = named[t.name]
+        else: t2 = t
+        if tstr(t) == want and path: return path
+        if t2.kind == 'lit':
+            if not t2.elems: return None
+            path += '.f0'; t = t2.elems[0]
+        elif t2.kind == 'arr':
+            if t2.n == 0: return None
+            path += '.a[0]'; t = t2.of
+        else: return None
+        if tstr(t) == want: return path
+    return None
 def gep_expr(base_c, base_t, idx):
     """base_t: pointee type; idx: list of (ctype-expr, is_const, constval)"""
     e = '%s[%s]' % (base_c, idx[0][0]) if idx[0][0] != '0' else '(*%s)' % base_c
@@ -259,6 +279,8 @@ def constexpr(p, w, t, loc):
         e, _ = gep_expr(base, bt, idx); return e
     if w in ('bitcast', 'inttoptr', 'ptrtoint', 'addrspacecast', 'trunc', 'zext', 'sext'):
         p.expect('('); ft = ptype(p); v = pvalue(p, ft, loc); p.expect('to'); tt = ptype(p); p.expect(')')
+        if w == 'bitcast' and ft.kind == 'ptr' and tt.kind == 'ptr' and ft.to.kind in ('named', 'lit', 'arr') and first_field_path(ft.to, tt.to):
+            return '(&(*%s)%s)' % (v, first_field_path(ft.to, tt.to))
         if w == 'ptrtoint': return '((%s)(uintptr_t)%s)' % (ctype(tt), v)
         if w == 'inttoptr': return '((%s)(uintptr_t)%s)' % (ctype(tt), v)
         if w == 'sext': return '((%s)(int%d_t)%s)' % (ctype(tt), ft.bits, v)
@@ -402,6 +424,12 @@ def translate_func(name, rt, args, names, va, body):
     phis = []  # (block, dest, T, [(valtext, pred)])
     allocas = []
     ptrbase = {}
+    # lvalue text of pointers computed by getelementptr / first-member bitcasts. Loads and stores through such a pointer
+    # are emitted on the lvalue itself (x.a[i].f.a[0]) instead of through the materialised pointer: CBMC 6.11 returns
+    # wrong values when a pointer to element 0 of an array member (not at offset 0) of an array-of-structs element with
+    # a symbolic index is dereferenced, while the direct member access is handled correctly (see DESIGN.md, CBMC notes).
+    # Sound for SSA: a use is dominated by its definition and no operand of the definition can be redefined in between.
+    lv = {}
     def lbl(b): return 'L_' + cid(b)
     def val(p, t): return pvalue(p, t, loc)
     def define(n, t): types[n] = t; return loc(n)
@@ -460,6 +488,8 @@ def translate_func(name, rt, args, names, va, body):
                     if ft.kind == 'int' and tt.kind == 'float' and ft.bits in (32, 64): e = 'BC_u%d_f%d(%s)' % (ft.bits, ft.bits, v)
                     elif ft.kind == 'float' and tt.kind == 'int' and tt.bits in (32, 64): e = 'BC_f%d_u%d(%s)' % (tt.bits, tt.bits, v)
                     else: raise Exception('non-pointer bitcast')
+                elif op == 'bitcast' and ft.kind == 'ptr' and tt.kind == 'ptr' and ft.to.kind in ('named', 'lit', 'arr') and first_field_path(ft.to, tt.to):
+                    e = '(&(*%s)%s)' % (v, first_field_path(ft.to, tt.to))
                 elif op in ('sitofp', 'fptosi'): e = '(%s)%s' % (ctype(tt), scast(ft, v) if ft.kind == 'int' else '(int64_t)' + v)
                 elif op == 'trunc' and tt.bits == 1: e = '(%s & 1)' % v
                 else: e = '(%s)%s' % (ctype(tt), v)
@@ -469,13 +499,16 @@ def translate_func(name, rt, args, names, va, body):
                 while p.eat(','): idx.append(idxval(p, loc))
                 e, rt_ = gep_expr(base, bt, idx)
                 c.append('%s = %s;' % (define(dest, T('ptr', to=rt_)), e))
+                # only GEPs with a symbolic index: forwarding everything slows CBMC down by two orders of magnitude
+                # and only the shape that triggers the CBMC bug: ...[symbolic]...<array member>[0]
+                if e.startswith('(&') and e.endswith('.a[0])') and len(idx) >= 3 and idx[-1][1] == 0 and any(cv is None for (ie, cv) in idx[:-1]) and os.environ.get('IR2C_FWD', '1') == '1': lv[loc(dest)] = e[2:-1]
             elif op == 'load':
                 p.eat('atomic'); p.eat('volatile'); t = ptype(p); p.expect(','); pt = ptype(p); a = val(p, pt)
-                c.append('%s = *%s;' % (define(dest, t), a))
+                c.append('%s = %s;' % (define(dest, t), lv[a] if a in lv else '*' + a))
             elif op == 'store':
                 p.eat('atomic'); p.eat('volatile'); t = ptype(p); v = val(p, t); p.expect(','); pt = ptype(p); a = val(p, pt)
                 if t.kind in ('lit', 'arr', 'named') and v.startswith('{'): v = '(%s)%s' % (ctype(t), v)
-                c.append('*%s = %s;' % (a, v))
+                c.append('%s = %s;' % (lv[a] if a in lv else '*' + a, v))
             elif op == 'alloca':
                 t = ptype(p); cnt = None
                 if p.eat(','):
@@ -610,7 +643,50 @@ def translate_func(name, rt, args, names, va, body):
             if b == to and any(pr == frm or (frm == first and pr not in blocks) for (v, pr) in inc):
                 cp2.append('%s = phi_%s;' % (loc(dest), cid(dest)))
         return ' '.join(cp + cp2 + ['goto %s;' % lbl(to)])
+    # Emit blocks in reverse post-order of the CFG: every edge that is not a loop back edge becomes a forward goto.
+    # (LLVM's textual order often places loop exits before the loop body; CBMC treats every backward goto as a loop
+    # back edge, which makes nested constant-trip loops fail unwinding assertions and re-executes post-loop code.)
+    succ = {}
     for b, c in code.items():
+        ss = []
+        for s_ in c:
+            if isinstance(s_, tuple):
+                if s_[0] == 'BR': ss.append(s_[1])
+                elif s_[0] == 'CBR': ss += [s_[2], s_[3]]
+                elif s_[0] == 'SW': ss += [tg for (cv, tg) in s_[3]] + [s_[2]]
+        succ[b] = [x for x in ss if x in code]
+    # back edges = edges to a block that is on the DFS stack
+    seen = set(); onstack = set(); back = set()
+    stack = [(first, iter(succ[first]))]; seen.add(first); onstack.add(first)
+    while stack:
+        b, it = stack[-1]
+        for nx in it:
+            if nx in onstack: back.add((b, nx))
+            elif nx not in seen:
+                seen.add(nx); onstack.add(nx); stack.append((nx, iter(succ[nx]))); break
+        else:
+            onstack.discard(b); stack.pop()
+    # topological order of the remaining DAG that stays as close as possible to LLVM's textual order (which CBMC's
+    # path merging likes): Kahn's algorithm with the original position as priority
+    import heapq
+    pos = {b: i for i, b in enumerate(code)}
+    indeg = {b: 0 for b in code}
+    for b in code:
+        for nx in set(succ[b]):
+            if (b, nx) not in back and b in seen: indeg[nx] += 1
+    heap = [pos[b] for b in code if indeg[b] == 0]
+    heapq.heapify(heap); names = list(code); order = []
+    while heap:
+        b = names[heapq.heappop(heap)]; order.append(b)
+        if b not in seen: continue
+        for nx in set(succ[b]):
+            if (b, nx) in back: continue
+            indeg[nx] -= 1
+            if indeg[nx] == 0: heapq.heappush(heap, pos[nx])
+    order += [b for b in code if b not in order]
+    if os.environ.get('IR2C_RPO', '1') != '1': order = list(code.keys())
+    for b in order:
+        c = code[b]
         emit(' %s: ;' % lbl(b))
         for s in c:
             if isinstance(s, tuple):
@@ -793,7 +869,7 @@ for gi, (g, t, init, const) in enumerate(globals_):
         v = pvalue(P(init), t, lambda n: n)
     except Exception as e:
         errors.append((g, 'init: ' + str(e))); gl_out.append('%s;' % d); continue
-    gl_out.append('%s%s = %s;' % ('const ' if const and False else '', d, v))
+    gl_out.append('%s%s = %s;' % ('const ' if const and os.environ.get('IR2C_CONST', '1') == '1' else '', d, v))
 
 hdr = ['#include "verif_prelude.h"', 'uint64_t nondet_u64(void);']
 # struct forward decls + defs in dependency order
